@@ -111,13 +111,36 @@ def _root_.Spl.Entry.ofGlobal : GlobalEntry → Entry
 
 def allTokens (d : AnalyzedSource) : Slice := Slice.full d.tokens.toArray
 
+/-- `table.rs::name_text_range` / `references.rs::ident_text_range`: the identifier token is the
+    last token of the node's range. -/
+def nameTextRange (s : Slice) (r : Range) : Except Panic Range :=
+  if r.hi ≤ r.lo then toTextRange s r
+  else
+    match s.get? (r.hi - 1) with
+    | some t => .ok t.range
+    | none => .error ⟨"slice"⟩
+
 def locate (d : AnalyzedSource) (s : Option Slice) (name : Identifier) : Except Panic (Option PosRange) :=
   match s with
   | none => .error ⟨"slice"⟩
   | some s =>
-    match toTextRange s name.info.range with
+    match nameTextRange s name.info.range with
     | .error e => .error e
     | .ok r => .ok (some (asPosRange r d.text))
+
+/-- `features::lookup_ident`: the name token in the procedure's own header is the procedure. -/
+def lookupIdent (d : AnalyzedSource) (pe : ProcedureEntry) (ident : Ident) : Except Panic (Option Entry) :=
+  let own : Except Panic Bool := match (allTokens d).sub pe.range with
+    | none => .ok false
+    | some s =>
+      if pe.name.info.range.hi == 0 then .ok false else
+      match s.get? (pe.name.info.range.hi - 1) with
+      | some t => .ok (t.range == ident.range)
+      | none => .ok false
+  match own with
+  | .error e => .error e
+  | .ok true => .ok ((tblLookup d.table ident.value).map Entry.ofGlobal)
+  | .ok false => .ok (lookupBoth (some pe.localTable) d.table ident.value)
 
 /-! ### goto.rs -/
 
@@ -134,15 +157,16 @@ def gotoDeclaration (d : AnalyzedSource) (p : Pos) : Except Panic (Option PosRan
         else locate d ((allTokens d).sub (GlobalEntry.range entry)) (GlobalEntry.name entry)
       | none => .ok none
     | some ident, some (.procedure pe) =>
-      match lookupBoth (some pe.localTable) d.table ident.value with
-      | some entry =>
+      match lookupIdent d pe ident with
+      | .error e => .error e
+      | .ok (some entry) =>
         if entry.isDefault then .ok none else
         let s : Option Slice := match entry with
           | .procedure q => (allTokens d).sub q.range
           | .type t => (allTokens d).sub t.range
           | .variable v | .parameter v => ((allTokens d).sub pe.range).bind (fun s => s.sub v.range)
         locate d s entry.name
-      | none => .ok none
+      | .ok none => .ok none
     | _, _ => .ok none
 
 def gotoTypeDefinition (d : AnalyzedSource) (p : Pos) : Except Panic (Option PosRange) :=
@@ -156,11 +180,12 @@ def gotoTypeDefinition (d : AnalyzedSource) (p : Pos) : Except Panic (Option Pos
       | some (.type t) => locate d ((allTokens d).sub t.range) t.name
       | _ => .ok none
     | some ident, some (.procedure pe) =>
-      match lookupBoth (some pe.localTable) d.table ident.value with
-      | some (.type t) =>
+      match lookupIdent d pe ident with
+      | .error e => .error e
+      | .ok (some (.type t)) =>
         if ident.value == "int".toList then .ok none else locate d ((allTokens d).sub t.range) t.name
-      | some (.procedure _) => .ok none
-      | some (.variable v) | some (.parameter v) =>
+      | .ok (some (.procedure _)) => .ok none
+      | .ok (some (.variable v)) | .ok (some (.parameter v)) =>
         match v.dataType with
         | some (.array _ _ creator) =>
           match tblLookup d.table creator with
@@ -168,7 +193,7 @@ def gotoTypeDefinition (d : AnalyzedSource) (p : Pos) : Except Panic (Option Pos
             if t.dataType == v.dataType then locate d ((allTokens d).sub t.range) t.name else .ok none
           | _ => .ok none
         | _ => .ok none
-      | none => .ok none
+      | .ok none => .ok none
     | _, _ => .ok none
 
 def gotoImplementation (d : AnalyzedSource) (p : Pos) : Except Panic (Option PosRange) :=
@@ -177,11 +202,12 @@ def gotoImplementation (d : AnalyzedSource) (p : Pos) : Except Panic (Option Pos
   | .ok c =>
     match c.ident, c.context with
     | some ident, some (.procedure pe) =>
-      match lookupBoth (some pe.localTable) d.table ident.value with
-      | some (.procedure target) =>
+      match lookupIdent d pe ident with
+      | .error e => .error e
+      | .ok (some (.procedure target)) =>
         if (Entry.procedure target).isDefault then .ok none
         else locate d ((allTokens d).sub target.range) target.name
-      | _ => .ok none
+      | .ok _ => .ok none
     | _, _ => .ok none
 
 /-! ### Display of table entries (table.rs) and hover.rs -/
@@ -237,9 +263,10 @@ def hover (d : AnalyzedSource) (p : Pos) : Except Panic (Option (PosRange × Lis
       | some entry => .ok (some (asPosRange ident.range d.text, createHover (Entry.ofGlobal entry)))
       | none => .ok none
     | some ident, some (.procedure pe) =>
-      match lookupBoth (some pe.localTable) d.table ident.value with
-      | some entry => .ok (some (asPosRange ident.range d.text, createHover entry))
-      | none => .ok none
+      match lookupIdent d pe ident with
+      | .error e => .error e
+      | .ok (some entry) => .ok (some (asPosRange ident.range d.text, createHover entry))
+      | .ok none => .ok none
     | _, _ => .ok none
 
 /-! ### fold.rs -/
@@ -470,20 +497,19 @@ def findVars (name procName : List Char) (p : Program) : List Identifier :=
     | _ => []
   | none => []
 
-def findReferenced (ident : Ident) (ctx : GlobalEntry) (d : AnalyzedSource) : List Identifier :=
+def findReferenced (ident : Ident) (ctx : GlobalEntry) (d : AnalyzedSource) : Except Panic (List Identifier) :=
   match ctx with
   | .procedure pe =>
-    if pe.name.value == ident.value then findProcs ident.value d.ast
-    else
-      match lookupBoth (some pe.localTable) d.table ident.value with
-      | some (.type _) => findTypes ident.value d.ast
-      | some (.procedure _) => findProcs ident.value d.ast
-      | some (.variable _) | some (.parameter _) => findVars ident.value pe.name.value d.ast
-      | none => []
-  | .type _ => findTypes ident.value d.ast
+    match lookupIdent d pe ident with
+    | .error e => .error e
+    | .ok (some (.type _)) => .ok (findTypes ident.value d.ast)
+    | .ok (some (.procedure _)) => .ok (findProcs ident.value d.ast)
+    | .ok (some (.variable _)) | .ok (some (.parameter _)) => .ok (findVars ident.value pe.name.value d.ast)
+    | .ok none => .ok []
+  | .type _ => .ok (findTypes ident.value d.ast)
 
 def identTextRanges (d : AnalyzedSource) (ids : List Identifier) : Except Panic (List Ident) :=
-  ids.mapM (fun i => (toTextRange (allTokens d) i.info.range).map (fun r => (⟨i.value, r⟩ : Ident)))
+  ids.mapM (fun i => (nameTextRange (allTokens d) i.info.range).map (fun r => (⟨i.value, r⟩ : Ident)))
 
 def references (d : AnalyzedSource) (p : Pos) : Except Panic (Option (List PosRange)) :=
   match docCursor d p with
@@ -491,7 +517,7 @@ def references (d : AnalyzedSource) (p : Pos) : Except Panic (Option (List PosRa
   | .ok c =>
     match c.ident, c.context with
     | some ident, some ctx =>
-      match identTextRanges d (findReferenced ident ctx d) with
+      match (findReferenced ident ctx d).bind (identTextRanges d) with
       | .error e => .error e
       | .ok ids => .ok (some ((ids.filter (fun i => i != ident)).map (fun i => asPosRange i.range d.text)))
     | _, _ => .ok none
@@ -503,7 +529,7 @@ def rename (d : AnalyzedSource) (p : Pos) : Except Panic (Option (List PosRange)
     match c.ident, c.context with
     | some ident, some ctx =>
       if ident.value == "int".toList then .ok none else
-      match identTextRanges d (findReferenced ident ctx d) with
+      match (findReferenced ident ctx d).bind (identTextRanges d) with
       | .error e => .error e
       | .ok ids => .ok (some (ids.map (fun i => asPosRange i.range d.text)))
     | _, _ => .ok none
